@@ -324,7 +324,15 @@ func decodeOutcome(o string) string {
 
 // jsonSafe makes a value marshalable: non-finite numbers, functions and other non-JSON values
 // (which a broken implementation can return) are replaced by descriptive strings.
-func jsonSafe(v interface{}) interface{} {
+func jsonSafe(v interface{}) interface{} { n := 200000; return jsonSafeAt(v, 0, &n) }
+
+// jsonSafeAt bounds the depth: a broken implementation can hand back (or turn its input into) a
+// value that contains itself, and the report must still be written.
+func jsonSafeAt(v interface{}, depth int, budget *int) interface{} {
+	*budget--
+	if depth > 400 || *budget < 0 {
+		return "value nested deeper than 400 levels or larger than 200000 nodes (cyclic?)"
+	}
 	switch x := v.(type) {
 	case nil, string, bool:
 		return x
@@ -336,13 +344,13 @@ func jsonSafe(v interface{}) interface{} {
 	case []interface{}:
 		out := make([]interface{}, len(x))
 		for i, e := range x {
-			out[i] = jsonSafe(e)
+			out[i] = jsonSafeAt(e, depth+1, budget)
 		}
 		return out
 	case map[string]interface{}:
 		out := make(map[string]interface{}, len(x))
 		for k, e := range x {
-			out[k] = jsonSafe(e)
+			out[k] = jsonSafeAt(e, depth+1, budget)
 		}
 		return out
 	default:
